@@ -116,23 +116,23 @@ CLAIMS = {
 # clauses added after the plan, usually because an independent seeded change was missed (DESIGN.md §9.1/§9.4)
 ADDED = {
  "C01": " The checkpoint write and the pruning of the checkpointed vertices happen without releasing the exclusive ledger lock in between; checkIsTrustedNode reports a sealer trusted only after reading the trusted-nodes store in that call. A checkpoint write covers every address of the checkpoint map (none is skipped), so no stale record of an earlier truncation survives. Gossip admission inserts a vertex only after every declared parent was found in the live graph (a vertex without edges is a root, and roots are exempt from the funds check). The funds a truncation folds into the checkpoint are those of the vertices its save walk visits: fundsMemMap.nextVertex is called only in the callback of that walk and the callback serves nothing else. Amounts are admitted only behind the canonicality predicate at every entry (shared with C05: the sums of the funds validation are Supply chains). The save walk's callback counts and stores the same vertex and succeeds only when both did (shared with C06/C07: a vertex pruned without having been folded takes its spend out of the checkpoint).",
- "C03": " Vertices are written to checkpoint storage only by the truncation walk callback, so none is both live and stored; an index entry is removed only as the roll-back of its own reservation or together with the deletion of its vertex. The index entry of a parent found invalid is released in the critical section that found it invalid (no unlock of the ledger lock between the failed validateLeaf and the release, and the released entry belongs to the validated value).",
- "C04": " The decoded wallet address is consumed completely (version, key, checksum tile [0,len) on every successful return), so no address with surplus bytes resolves to a key. Every exit of gossip admission after the index reservation gives the reservation back; the digest scratch buffers are large enough for what is written into them. No branch in a signed-message builder depends on the content of a signed field. A creation time is read into a signed message only with UnixNano and is written as read (no division, shift, mask or narrower conversion in between).",
- "C05": " Every carry increment of the main currency lies behind the != MaxUint64 test of the same operand; the sink of every Drain in ledger accounting is private to that computation (no package-level sink). Every borrow decrement of the main currency lies behind a test that excludes zero on the same operand. The ledger's sufficiency verdict is the success of in.Drain(*out, sink) itself. pourFunds counts a transfer with its own amount on the issuer's and on the receiver's side, both in one execution when they are one wallet. Every address of the checkpoint map is rewritten at each truncation (a stale record is value that exists twice). A copyFrom into an operand of Supply / Transfer leads only to error returns. Every comparison with 10^18 in package spice is >= / <. The per-vertex fold of a truncation only adds (Supply); the one subtraction per wallet happens after the walk, so the folded result does not depend on the order of the walk. Only the vertices the save walk visits are folded into a checkpoint (a vertex folded from elsewhere would be counted in the checkpoint and live). The live fold and the checkpoint fold read of a vertex only the parties and the amount.",
- "C06": " Checkpoint write and pruning are atomic under the ledger lock (shared with C01); the single tip poured outside the walk is the walk's start; every address of the funds map is re-written at each checkpoint (shared with C07). The flow classifier can perform the inflow and the outflow supply in one execution (a self-transfer counts on both sides). Checkpointed funds are written, read and enumerated under one key form of the address, and the enumeration skips the vertex records of the shared store. fundsMemMap.nextVertex leaves a vertex out of the checkpoint only when its transaction is not a spice transfer — the exemption pourFunds has. Every comparison with 10^18 in package spice is >= / < (a sum of exactly 10^18 is carried). The list of edge sources of a received vertex grows on every completed turn of the loop over its declared parents (whether a parent still is a tip decides validation, not linking). After a truncation each transfer is in exactly one of checkpoint and live graph: the fold sees only the walked vertices, the walk callback counts and stores the same vertex and succeeds only when both did, the deleted ids are the collected ones. pourFunds and fundsMemMap.nextVertex read of a vertex only Transaction.{IssuerAddress, ReceiverAddress, Spice}.",
+ "C03": " Vertices are written to checkpoint storage only by the truncation walk callback, so none is both live and stored; an index entry is removed only as the roll-back of its own reservation or together with the deletion of its vertex. The index entry of a parent found invalid is released in the critical section that found it invalid (no unlock of the ledger lock between the failed validateLeaf and the release, and the released entry belongs to the validated value). The index functions touch nothing but the index database (no second copy of an answer). A vertex dropped outside a truncation takes its own index entry along on every path.",
+ "C04": " The decoded wallet address is consumed completely (version, key, checksum tile [0,len) on every successful return), so no address with surplus bytes resolves to a key. Every exit of gossip admission after the index reservation gives the reservation back; the digest scratch buffers are large enough for what is written into them. No branch in a signed-message builder depends on the content of a signed field. A creation time is read into a signed message only with UnixNano and is written as read (no division, shift, mask or narrower conversion in between). No variable-length field of a vertex or transaction is copied into a destination of constant length (what is verified is what was offered).",
+ "C05": " Every carry increment of the main currency lies behind the != MaxUint64 test of the same operand; the sink of every Drain in ledger accounting is private to that computation (no package-level sink). Every borrow decrement of the main currency lies behind a test that excludes zero on the same operand. The ledger's sufficiency verdict is the success of in.Drain(*out, sink) itself. pourFunds counts a transfer with its own amount on the issuer's and on the receiver's side, both in one execution when they are one wallet. Every address of the checkpoint map is rewritten at each truncation (a stale record is value that exists twice). A copyFrom into an operand of Supply / Transfer leads only to error returns. Every comparison with 10^18 in package spice is >= / <. The per-vertex fold of a truncation only adds (Supply); the one subtraction per wallet happens after the walk, so the folded result does not depend on the order of the walk. Only the vertices the save walk visits are folded into a checkpoint (a vertex folded from elsewhere would be counted in the checkpoint and live). The live fold and the checkpoint fold read of a vertex only the parties and the amount. Once validateLeaf has begun to account for a transfer it reports success only behind the sufficiency verdict over the very accumulators the pours fill.",
+ "C06": " Checkpoint write and pruning are atomic under the ledger lock (shared with C01); the single tip poured outside the walk is the walk's start; every address of the funds map is re-written at each checkpoint (shared with C07). The flow classifier can perform the inflow and the outflow supply in one execution (a self-transfer counts on both sides). Checkpointed funds are written, read and enumerated under one key form of the address, and the enumeration skips the vertex records of the shared store. fundsMemMap.nextVertex leaves a vertex out of the checkpoint only when its transaction is not a spice transfer — the exemption pourFunds has. Every comparison with 10^18 in package spice is >= / < (a sum of exactly 10^18 is carried). The list of edge sources of a received vertex grows on every completed turn of the loop over its declared parents (whether a parent still is a tip decides validation, not linking). After a truncation each transfer is in exactly one of checkpoint and live graph: the fold sees only the walked vertices, the walk callback counts and stores the same vertex and succeeds only when both did, the deleted ids are the collected ones. pourFunds and fundsMemMap.nextVertex read of a vertex only Transaction.{IssuerAddress, ReceiverAddress, Spice}. In CalculateBalance no success return is reachable from the failure edge of a step (only an error told apart by name, such as 'no checkpoint yet', is a decision).",
  "C07": " Every read of the checkpointed funds happens under the ledger lock; every address of the funds map is written at each checkpoint; only the truncation walk writes vertices to storage. "
         "Truncation is analysed through a role model of its walks, wherever in truncate or its helpers they sit. Checkpointed funds are written, read and enumerated under one key form of the address, and the enumeration skips the vertex records of the shared store. nextVertex leaves a vertex out of the checkpoint only when its transaction is not a spice transfer. Every failure of ReadTransactionByHash's graph lookup reaches the storage read. The sink of every Drain belongs to its own computation / iteration. A received vertex is linked to every declared parent that was looked up (an unlinked one would be a root for validateLeaf, validated against nothing). nextVertex is called only in the callback of the save walk and that callback serves nothing else.",
- "C08": " While a walk is consumed neither its loop, nor helpers, nor callbacks take the graph lock in write mode. A select that sends on a long-lived channel under a lock is subject to the same wait-for-cycle test as a plain send. Where a function tests a stream call's error, every receive on the stream lies on the err == nil side. Channels handed out by accessor methods (subscribe) are resolved to their field for the send/lock wait-for-cycle test.",
- "C09": " Outside truncation only childless vertices are deleted; truncation deletes exactly the ids gathered by a walk from the cut the save walk started at; in LoadDag no lookup decides to skip the link to a declared parent. The parents CreateLeaf links to originate only from getValidLeaves, which hands out a tip only behind the success of validateLeaf for that tip. Truncation's save callback lets the walk continue or stop quietly only after the vertex at hand was stored. Gossip admission inserts a vertex only behind the success of leaf.verify for that vertex on every path. The only exclusive-lock calls into the graph library are AddVertexByID, AddEdge and DeleteVertex. The edge-source list of gossip admission grows on every completed turn of the parent loop.",
+ "C08": " While a walk is consumed neither its loop, nor helpers, nor callbacks take the graph lock in write mode. A select that sends on a long-lived channel under a lock is subject to the same wait-for-cycle test as a plain send. Where a function tests a stream call's error, every receive on the stream lies on the err == nil side. Channels handed out by accessor methods (subscribe) are resolved to their field for the send/lock wait-for-cycle test. Every storage scan advances its iterator between two looks at the current item.",
+ "C09": " Outside truncation only childless vertices are deleted; truncation deletes exactly the ids gathered by a walk from the cut the save walk started at; in LoadDag no lookup decides to skip the link to a declared parent. The parents CreateLeaf links to originate only from getValidLeaves, which hands out a tip only behind the success of validateLeaf for that tip. Truncation's save callback lets the walk continue or stop quietly only after the vertex at hand was stored. Gossip admission inserts a vertex only behind the success of leaf.verify for that vertex on every path. The only exclusive-lock calls into the graph library are AddVertexByID, AddEdge and DeleteVertex. The edge-source list of gossip admission grows on every completed turn of the parent loop. A tip that is dropped takes its own index entry along (shared with C03).",
  "C10": " The genesis receiver compared with the node's own address is the very value handed to transaction.New. The *Vertex handed to AddLeaf by the serving packages is the caller's own allocation (the ledger parks and replays that pointer). No write that turns the loaded flag on is followed by the assignment of the genesis address. Transaction.IsContract / IsSpiceTransfer / IsEmpty read Data and Spice only. wallet.Helper.AddressToPubKey pins the version byte of an address to a constant: one key has one address string, which the string comparisons of the sealing guards rely on (defect F-C10-1, fixed). The address decoder is given the address parameter itself (no trimming or other normalisation in front of Base58Decode).",
- "C11": " The seen-cache test-and-mark is one critical section; verifyGossipers keeps every well-formed verifying upstream entry (the forwarded list is rebuilt from its result). Every refusal exit of a gossip handler ahead of the hand-over to the ledger is a shape, signature or seen-before refusal. No write of the peer table is reachable from the functions that receive, originate or forward items. The seen-mark of an item hash is removed by expiry only. Every HasHash reachable from a gossip handler is given the hash of that handler's item. Every sending method of pipe.Juggler hands the item over with a send that waits for room (no select that gives the item up through its default arm). In GossipTrx the forwarding stays reachable from the failure edge of the awaiting-cache save (the cache is not a gate of the protocol). The pure shape validators in front of the gossip handlers test the length only of fields that a mapper converts to a fixed-size array.",
+ "C11": " The seen-cache test-and-mark is one critical section; verifyGossipers keeps every well-formed verifying upstream entry (the forwarded list is rebuilt from its result). Every refusal exit of a gossip handler ahead of the hand-over to the ledger is a shape, signature or seen-before refusal. No write of the peer table is reachable from the functions that receive, originate or forward items. The seen-mark of an item hash is removed by expiry only. Every HasHash reachable from a gossip handler is given the hash of that handler's item. Every sending method of pipe.Juggler hands the item over with a send that waits for room (no select that gives the item up through its default arm). In GossipTrx the forwarding stays reachable from the failure edge of the awaiting-cache save (the cache is not a gate of the protocol). The pure shape validators in front of the gossip handlers test the length only of fields that a mapper converts to a fixed-size array. No WaitGroup.Wait of package gossip runs with a repository lock held.",
  "C12": " Every listed entry is verified unless malformed and every verified entry enters the set; the signed statement is built from both the address and the item hash. No branch depends on the size of the verified set. Every peer-table write reachable from Announce / Discover is keyed by the verified request's own address. The statement bytes handed to the verifier are built without package-level state. One key has one address string (the version byte of a decoded address is pinned), so membership by address is membership by wallet.",
  "C13": " The retry order never prefers a newer parked vertex; the ticker loop publishes every vertex it pops; replays run under the subscriber loop's own context. Admission reaches the vertex verification on every path, replayed or not. The retry loop itself touches neither the DAG nor the transaction index; the vertex handed to AddLeaf is the caller's own allocation. buffer.insert reports success only when the vertex was appended. Every vertex taken from the buffer passes the admission call before the next wait; the parked list grows through insert only. The pop loop of the buffer waits on the ticker and the context only.",
- "C14": " Once a walk of the serving stream was abandoned nothing more is streamed; the errors of stream.Send / stream.Recv / vertex decoding can reach the results of the serving handler and of updateDag; LoadDag inserts a vertex only behind the duplicate-refusing reservation of its transaction. State that can bypass the link to a declared parent in LoadDag is created anew for every loaded vertex. The goroutine serving StreamDAG releases the ledger lock only by its deferred unlock. No vertex gets past LoadDag's checking loop without the IsEmpty test. Every send of a vertex on the StreamDAG channel happens with the ledger lock held.",
- "C15": " ed25519.Verify is reached only with a key of length exactly 32; a gossiped vertex the ledger rejects leaves no index reservation behind (shared with C03); bounded random draws get a provably positive bound. Every operation on a map table of a request-serving struct that has a mutex (peer table, webhook table; aliases, nested tables, helpers, closures followed) runs with that mutex held, exclusively for writes. No value is dereferenced on a path from the branch edge where the same function found it nil. No entry is assigned in a map that is nil on some path (results of repo helpers included). No slice is made with a size that is an unguarded difference of two run-time quantities. Logger.Fatal is not reachable from any RPC handler. No slice is extended by re-slicing past its length without a cap test. A pointer or interface taken from a map lookup is used only behind the found-edge of the comma-ok form or a nil test. The outcome of truncate's depth walk decides a branch before its hash is used as the checkpoint vertex (a received vertex may claim any weight; defect F-C15-5, fixed). Indexes of the form x[len(x)-c] and string indexing are covered by the bounds rule, which now also looks at packages cache and webhooks. Every Unlock / RUnlock in the request-serving packages runs with the mutex in the must-hold lockset — explicit ones where they stand, deferred ones at every return reachable from the defer.",
+ "C14": " Once a walk of the serving stream was abandoned nothing more is streamed; the errors of stream.Send / stream.Recv / vertex decoding can reach the results of the serving handler and of updateDag; LoadDag inserts a vertex only behind the duplicate-refusing reservation of its transaction. State that can bypass the link to a declared parent in LoadDag is created anew for every loaded vertex. The goroutine serving StreamDAG releases the ledger lock only by its deferred unlock. No vertex gets past LoadDag's checking loop without the IsEmpty test. Every send of a vertex on the StreamDAG channel happens with the ledger lock held. Every exit of the loop over the tips in StreamDAG is decided by the range, a ctx.Done() select, an error or a failed type assertion.",
+ "C15": " ed25519.Verify is reached only with a key of length exactly 32; a gossiped vertex the ledger rejects leaves no index reservation behind (shared with C03); bounded random draws get a provably positive bound. Every operation on a map table of a request-serving struct that has a mutex (peer table, webhook table; aliases, nested tables, helpers, closures followed) runs with that mutex held, exclusively for writes. No value is dereferenced on a path from the branch edge where the same function found it nil. No entry is assigned in a map that is nil on some path (results of repo helpers included). No slice is made with a size that is an unguarded difference of two run-time quantities. Logger.Fatal is not reachable from any RPC handler. No slice is extended by re-slicing past its length without a cap test. A pointer or interface taken from a map lookup is used only behind the found-edge of the comma-ok form or a nil test. The outcome of truncate's depth walk decides a branch before its hash is used as the checkpoint vertex (a received vertex may claim any weight; defect F-C15-5, fixed). Indexes of the form x[len(x)-c] and string indexing are covered by the bounds rule, which now also looks at packages cache and webhooks. Every Unlock / RUnlock in the request-serving packages runs with the mutex in the must-hold lockset — explicit ones where they stand, deferred ones at every return reachable from the defer. Nothing is sent on the stop channel of a graph walk (the walker closes it).",
  "C16": " The awaited entry is removed atomically with the authorisation test; wallet.Helper.Verify itself reports success only behind ed25519.Verify under the key decoded from the given address (shared with C04); ProvideData stores only challenge bytes drawn in that call. No notary handler uses package-level mutable state while assembling its response. A per-address list written inside a loop derives from that iteration's read of that address (shared with C17): a waiting list never contains another address's list.",
- "C17": " Cache writes under index keys (encodeAddressKey / encodeTrxKey) occur only in the awaiting-index functions and those write under no other keys. What is pruned from an address list are exactly the hashes whose record lookup failed. A per-address list written inside a loop does not depend on a value carried over from an earlier iteration. After the entry is stored, an address is left unlisted only when a cache call fails. No list helper writes into a reslice of the list it is still splitting and walking. The 'already exists' answer of SaveAwaitedTransaction performs no cache write. A per-address list is deleted only behind len(list) == 0 of the list read under that key. A key hash supplied to the cache by the repository is not computed from a fixed-length part of the key (none is supplied today).",
- "C18": " No function returns (a reslice of) a written slice / map field of a tracked struct. No function returns memory owned by an object it puts back into a sync.Pool.",
+ "C17": " Cache writes under index keys (encodeAddressKey / encodeTrxKey) occur only in the awaiting-index functions and those write under no other keys. What is pruned from an address list are exactly the hashes whose record lookup failed. A per-address list written inside a loop does not depend on a value carried over from an earlier iteration. After the entry is stored, an address is left unlisted only when a cache call fails. No list helper writes into a reslice of the list it is still splitting and walking. The 'already exists' answer of SaveAwaitedTransaction performs no cache write. A per-address list is deleted only behind len(list) == 0 of the list read under that key. A key hash supplied to the cache by the repository is not computed from a fixed-length part of the key (none is supplied today). Every key handed to the shared cache comes out of a key encoder with a constant prefix, and the prefixes are pairwise different (defect F-C17-2, fixed); ReadTransactions can return its list along a path without any cache write.",
+ "C18": " No function returns (a reslice of) a written slice / map field of a tracked struct. No function returns memory owned by an object it puts back into a sync.Pool. A library method called on a struct field with only a read lock held does not store through its receiver unless it synchronises itself.",
  "C19": " The transcoding functions touch no package-level mutable state (their results cannot alias storage another call reuses); msgpack key tables are complete and unique per struct; every msgpack decode writes into a fresh zero value. The byte slice handed to the zero-copy decoder does not outlive the call in a reusable buffer. No field is rewritten between a value and the msgpack encoder or between the decoder and the value. A mapper that shares bytes with its pointer argument is not given the address of a variable a loop reassigns while the message is kept. msgpack tags carry no options (the two libraries derive different keys from them). An encoder method is not called on a local copy of the value with a reassigned field (the stored record is the value's own encoding).",
  "C20": " SaveWallet replaces the file (no write into an existing longer file); a PEM block is tested for nil before use; the functions producing / reading the wallet's stored form use no package-level state. No byte slice that originates from a field of the file helper is written to. A file renamed over the wallet file is a unique temporary or named from the complete wallet path. Nothing reachable from the read functions creates a key pair or writes a file. Encrypt and Decrypt build the AES key from the key parameter through the same derivation. Every file the helpers touch is named by a configured path itself or that path plus a constant suffix. The bytes handed to Decrypt are the bytes read from the file and the bytes written next to the wallet path are the bytes Encrypt returned, unchanged.",
 }
